@@ -305,16 +305,17 @@ def mutate_case(rng, case):
 
 
 CLAIMED = True
-LEVEL_TEXT = ("Theorem C03_roundtrip_identical_bbfree: for every lint-clean closed circuit without constants and blackboxes, every order "
-              "choice of the writer and every reserved set containing the identifiers of the text, reading the primitive-style text back "
-              "succeeds and returns the identical circuit (nodes, types, edges, output marks, name). Statements for all lint-clean circuits "
-              "with legal names, both styles: roundtrip_identical_full and roundtrip_equiv_full; proved parts: the writer's expression for a "
-              "gate denotes the gate's function of its operands (all types, all arities, all operand orders), the reader's gates for it "
-              "carry that value (C02), the interface of a successful read. The composition for circuits with blackboxes / constants and "
-              "for the assign style is decided per generated circuit by the Coq specification on the recorded read-back circuits "
-              "(identity of the graph where claimed; interface, registry, pin nets and exhaustive function comparison otherwise), directly "
-              "and through to_file/from_file.")
+LEVEL_TEXT = ("Theorems for every lint-clean closed circuit without blackboxes, every order choice of the writer and every reserved set "
+              "containing the identifiers of the text: (C03_roundtrip_identical_bbfree) without constants, reading the primitive-style text "
+              "back succeeds and returns the identical circuit (nodes, types, edges, output marks, name); (C03_roundtrip_equiv_bbfree) in both "
+              "styles, with constants 0/1, reading the text back succeeds and gives a circuit with the same name, inputs, outputs and registry "
+              "that is equivalent to the original on the outputs. Statements for all lint-clean circuits with legal names: "
+              "roundtrip_identical_full and roundtrip_equiv_full; proved parts: the writer's expression for a gate denotes the gate's function "
+              "of its operands (all types, all arities, all operand orders), the reader's gates for it carry that value (C02), the interface of "
+              "a successful read. The composition for circuits with blackboxes / x constants is decided per generated circuit by the Coq "
+              "specification on the recorded read-back circuits (identity of the graph where claimed; interface, registry, pin nets and "
+              "exhaustive function comparison otherwise), directly and through to_file/from_file.")
 LEVEL_NOTE = ("Trusted: Coq kernel + vm_compute, std++, Lark, the harness tokenizer of the writer's text (the text layer - blanks after "
               "escaped names, line layout - is validated by it, not modelled). All 1'bx constants denote one shared unknown. "
-              "roundtrip_identical_full (blackbox instances) / roundtrip_equiv_full are stated and validated per case, not proved.")
+              "roundtrip_identical_full / roundtrip_equiv_full (circuits with blackbox instances) are stated and validated per case, not proved.")
 TECHNIQUE = "Coq models of writer and reader + proved expression lemmas + vm_compute correspondence and round-trip oracle"
